@@ -879,6 +879,14 @@ example : (padToG AxMap.size g0 [5, 3, 8]).toBool = true := by decide +kernel
 /-- flip, then the same flip, on the volume `v0`: accepted, hypotheses of `inverse_pair_restores_volume` hold -/
 example : ((SOp.flip [1]).applyVol .patient v0).toBool = true ∧ (SOp.flip [1]).keepsAll = true ∧ (SOp.flip [1]).cropping = true :=
   by decide +kernel
+/-- … and the second flip gives the geometry of `v0` back (hypothesis `hg`), likewise pad by (1,0),(0,2),(3,3) then crop -/
+example : (match (SOp.flip [1]).applyVol .patient v0 with
+    | .ok w1 => (match (SOp.flip [1]).applyVol .patient w1.1 with | .ok w2 => decide (w2.1.geom = g0) | .error _ => false)
+    | .error _ => false) = true ∧
+    (match (SOp.pad (.nested [[1, 0], [0, 2], [3, 3]]) ⟨"EDGE", 0, false⟩).applyVol .patient v0 with
+    | .ok w1 => (match (SOp.getitem [.slice (some 1) (some 5) none, .slice (some 0) (some 3) none, .slice (some 3) (some 8) none]).applyVol
+                   .patient w1.1 with | .ok w2 => decide (w2.1.geom = g0) | .error _ => false)
+    | .error _ => false) = true := by decide +kernel
 example : v0.Shows (g0.pos ⟨1, 2, 3⟩) [1, 2] (1 + 20 + 300 + 3) := ⟨⟨1, 2, 3⟩, by decide +kernel, rfl, by decide +kernel⟩
 example : allSpatial SOp.rearranges [.spatial (.flip [0]), .spatial (.permute [2, 0, 1]), .spatial .copy] := by
   intro op hop
